@@ -524,6 +524,22 @@ class World(BaseWorld):
             self.note("probe_side_with_ge3_wires")
         return "ok"
 
+    def op_word(self, op):
+        """a CCG leaf with a non-empty domain (tree2diagram(leaf, dom=...)) and its rigid image"""
+        from discopy.grammar.ccg import tree2diagram
+        dom = mk_bty(op["dom"])
+        try:
+            d = tree2diagram({"word": op["word"], "cat": op["cat"]}, dom=dom)
+        except Exception as err:
+            raise self.vio("tree-exception", "tree2diagram raised %s: %s" % (type(err).__name__, str(err)[:200]))
+        B.require_well_typed(d, "%s.ill-typed" % self.prop, "tree2diagram result")
+        if img(d.dom) != img(dom) or img(d.cod) != img(mk_bty(op["cat_spec"])):
+            raise self.vio("tree-cod", "tree2diagram of a leaf has type %s -> %s" % (d.dom, d.cod))
+        self.check_translation(d, "CCG word with a domain")
+        self.note("words_with_domain")
+        self.case("word", op["word"], op["cat"], op["dom"])
+        return "ok"
+
     def op_tree(self, op):
         from discopy.grammar.ccg import tree2diagram, cat2ty
         from discopy import biclosed as BC
@@ -640,6 +656,10 @@ class Driver:
             if fault.random() < cfg.get("p_interrupt", 0.0):
                 op["interrupt_at"] = max(1, int(3000 ** fault.random()))
             return op
+        if sched.random() < 0.06:
+            cat, spec = cat_string(gen, gen.choice([0, 1, 2]))
+            return {"op": "word", "word": "w", "cat": cat, "cat_spec": spec,
+                    "dom": gen_bty_bounded(gen, gen.choice([0, 1, 2]), 2, 4)}
         if sched.random() < 0.3:
             depth = gen.randint(0, 3)
             tree, spec = self.ccg_tree(depth)
